@@ -79,3 +79,8 @@ claim("C07", "static analysis: phase-writer ownership and predecessor guards, or
   "Decides that only the seven transition functions move the phase (each to its own constant, from its predecessor), rounds only increase, each transition stores the phase, notifies progress and broadcasts exactly once its own phase at the right round and arms its alarm; emitted shapes; zero-power participants emit nothing; round-0 PREPARE value provenance; the PREPARE-exit and COMMIT-handling tables equal the specification; every quorum-backed prefix becomes a candidate (full-range loop); sways need PREPARE proof; exported entry points recover panics (C07.R1–R9). Necessary structural conditions; one-message-per-slot across re-entries is enforced at run time (C12).",
   "AS4 DECIDE messages have round 0; trusts go/types, go/ssa, checker/sccp.go, spec tables in checker/gpbft_rules2.go.",
   "DESIGN.md §4 C07")
+
+claim("C15", "static analysis: linear forms and provenance on proposal construction, guard dominance on the chain walk, call-graph effect rule on GetCommittee",
+  "Decides that the proposal's base is the head finalized by certificate instance−1 (bootstrap tipset at BootstrapEpoch−Finality first), that the suffix walk collects only the head and parents, ends only on key equality with the base and returns an empty suffix on divergence, the length bound min(ChainMaxLen, ChainProposedLength) and shortening-only trims, that each tipset carries the CID of EC's table for its own key and the supplemental data commits to GetCommittee(instance+1), the committee look-back rule as linear forms (threshold, certificate index, no wrap), that GetCommittee touches only finalized history on the EC backend, and the participant-side truncation/validation (C15.R1–R7). Necessary structural conditions; agreement with an EC-tree model on all trees is not decided.",
+  "Trusts go/types, go/ssa, checker/lin.go, checker/c15.go.",
+  "DESIGN.md §4 C15")
